@@ -53,16 +53,21 @@ def tokenize(code: str) -> list[str]:
     return lines
 
 
-def normalize_line(line: str) -> str:
+# Comment markers of every supported language; callers that know the language pass its own
+ALL_COMMENT_MARKERS = ("#", "//")
+
+
+def normalize_line(line: str, comment_markers: tuple[str, ...] = ALL_COMMENT_MARKERS) -> str:
     """Normalize a line by removing comments and excess whitespace.
 
     Args:
         line: Raw source code line
+        comment_markers: Markers that start a comment in the language of the line
 
     Returns:
         Normalized line (empty string if line has no content)
     """
-    line = _strip_comments(line)
+    line = _strip_comments(line, comment_markers)
     return " ".join(line.split())
 
 
@@ -113,23 +118,35 @@ def _handle_multiline_import_continuation(line: str) -> tuple[bool, bool]:
     return not closes_import, True
 
 
-def _strip_comments(line: str) -> str:
-    """Remove comments from line (Python # and // style).
+def _strip_comments(line: str, comment_markers: tuple[str, ...] = ALL_COMMENT_MARKERS) -> str:
+    """Remove a trailing comment from line (Python # and // style).
+
+    A marker inside a string literal ("http://host", "#tag") is text, not a comment.
 
     Args:
         line: Source code line
+        comment_markers: Markers that start a comment in the language of the line
 
     Returns:
         Line with comments removed
     """
-    # Python comments
-    if "#" in line:
-        line = line[: line.index("#")]
+    if not any(marker in line for marker in comment_markers):
+        return line
 
-    # JavaScript/TypeScript comments
-    if "//" in line:
-        line = line[: line.index("//")]
-
+    quote = ""
+    index = 0
+    while index < len(line):
+        char = line[index]
+        if quote:
+            if char == "\\":
+                index += 1  # skip the escaped character
+            elif char == quote:
+                quote = ""
+        elif char in "\"'`":
+            quote = char
+        elif line.startswith(comment_markers, index):
+            return line[:index]
+        index += 1
     return line
 
 
